@@ -27,7 +27,7 @@ The guard polarity of the model is a parameter: the driver is asked for both pol
 agree with ONE polarity on every case of the run (`fixed` preferred).  Where it only agrees with `pinned`, the
 oracle has already reported those cases as violations (defect F1) – that is not a model mismatch.
 """
-import builtins, contextlib, hashlib, io, os, shutil, sys, tempfile
+import builtins, collections, contextlib, hashlib, io, os, shutil, sys, tempfile
 from harness import common
 
 
@@ -543,7 +543,17 @@ def run(ctx):
         nat = cfg.get("natural")
         variant = 0 if (nat and nat[0] == "variant") else 1
         # index of the failing event among the model-relevant events (a temporary-file event maps to the step it precedes)
-        mi = lambda k: sum(1 for kind in res["kinds"][:k] if not (kind in POST_OPEN_OK or kind.startswith("tmp")))
+        def mi(k):
+            """model index of impl event k. The model's single steps (validate, filename, xs, compress) that precede the
+            event's kind in the pipeline but were NOT observed before it (the private function the tracer hooks is no
+            longer on the path) still occupy their place in the model's pipeline"""
+            before = [kd for kd in res["kinds"][:k] if not (kd in POST_OPEN_OK or kd.startswith("tmp"))]
+            naive = len(before)
+            if k >= len(res["kinds"]) or res["kinds"][k] not in KIND_ORDER:
+                return naive
+            kd = res["kinds"][k]
+            single = [x for x in ("validate", "filename", "xs", "compress") if not (x == "validate" and cfg["sv"])]
+            return naive + sum(1 for x in single if KIND_ORDER.index(x) < KIND_ORDER.index(kd) and x not in before)
         if res["fired"]:
             fault = mi(cfg["fault"])
         elif nat and nat[0] != "variant" and res["first_exc_idx"] is not None and res["outcome"] == "error":
@@ -741,15 +751,36 @@ def run(ctx):
         last = [w for w in ws if ":" in w][-1:] if ws else []
         return (tuple(kinds), tuple(tail), tuple(last), ws[0] == "error")
 
+    def without_unobserved(model_line, impl_line):
+        """a step kind of the model that the tracer saw NO event of (the private function it hooks is no longer on the
+        path, e.g. compression moved into another helper) is taken out of the model's line: the events that exist are
+        what can be compared and what faults can be injected at; `n` shrinks with it. What touches the file system, what
+        can still fail after the destination is opened and the last step stay compared as they are."""
+        seen = {w.split(":")[0] for w in impl_line.split() if ":" in w}
+        out, dropped = [], 0
+        for w in model_line.split():
+            if ":" in w and w.split(":")[0] not in seen and w.split(":")[0] != "open":
+                dropped += int(w.split(":")[1])
+            elif w.startswith("n="):
+                out.append(f"n={int(w[2:]) - dropped}")
+            else:
+                out.append(w)
+        return " ".join(out), dropped
+
     order_same = 0
+    unobserved = collections.Counter()
     for cmd, o, x, m in zip(trace_cmds, t_out, trace_expect, trace_meta):
         if o == x:
             order_same += 1
+        o, dropped = without_unobserved(o, x)
+        if dropped:
+            unobserved[cmd.split()[1]] += dropped
         if abstraction(o) != abstraction(x):
             R.mismatch("event trace of a real save and the model's pipeline differ in what can still fail after the "
                        "destination is opened / in the kinds of step", {"op": "trace", **m, "cmd": cmd}, impl=x, model=o)
         else:
             R.traces += 1
+    R.extra["model_steps_without_an_observed_event"] = sum(unobserved.values())
     R.extra["event_traces"] = {"compared": len(trace_cmds), "same_order_classes_as_model": order_same,
                                "example": trace_expect[0] if trace_expect else None}
     fixed = [c_out[2 * i] for i in range(len(pend))]
